@@ -13,8 +13,9 @@ from ..oracle import cpu6502
 
 
 # ---------------------------------------------------------------------------------------------------------------
-def gen_program(rng, big):
-    """A test body with nested counted loops and subroutines; returns (body, source lines, line of every body item)."""
+def gen_program(rng, big, dead=0):
+    """A test body with nested counted loops and subroutines; returns (body, source lines, line of every body item).
+    dead > 0 appends a subroutine of that many instructions that is never called (lines for breakpoints that are never hit)."""
     body = [("ins", "lda", "imm", rng.randrange(256)), ("ins", "ldy", "imm", rng.randrange(256)), ("ins", "clc", "imp", None)]
     subs = ["sub%d" % i for i in range(rng.randrange(1, 3))]
     nblocks = rng.randrange(2, 4)
@@ -40,6 +41,10 @@ def gen_program(rng, big):
         body.append(("label", s))
         ops = testgen.gen_ops(rng, rng.randrange(1, 4), avoid_x=True)
         body.extend(ops)
+        body.append(("ins", "rts", "imp", None))
+    if dead:
+        body.append(("label", "never_called"))
+        body.extend([("ins", "nop", "imp", None)] * dead)
         body.append(("ins", "rts", "imp", None))
     # gen_ops may emit zp addresses 0x80-0x83 only: the loop counters at 0x90.. are never touched by them
     lines, where = testgen.render_body(body, {}, {})
@@ -144,8 +149,9 @@ def run_session(job):
     def count(k, n=1):
         out["counts"][k] = out["counts"].get(k, 0) + n
 
+    many_breakpoints = kind == "race" and rng.random() < 0.5
     for _ in range(30):
-        body, src, line_of = gen_program(rng, big)
+        body, src, line_of = gen_program(rng, big, dead=rng.choice([100, 250, 400]) if many_breakpoints else 0)
         end, m = reference_trace(body)
         if end[0] == "brk" and (len(m.trace) > (3000 if big else 60)):
             break
@@ -172,6 +178,11 @@ def run_session(job):
         bps = sorted(rng.sample(lines_in_trace, min(nbp, len(lines_in_trace))))
         if kind == "calibrate":
             bps = [lines_in_trace[0]]
+        if many_breakpoints:
+            # hundreds of breakpoints on lines that are never executed: the machine thread has that many to look at before
+            # every instruction, which is when a pause can slip in
+            bps = sorted(set(bps) | {line_of[i] for i, it in enumerate(body) if it[0] == "ins" and line_of[i] > max(lines_in_trace)})
+            out["cover"].add("hundreds-of-breakpoints")
         r = ses.start(bps)
         if not isinstance(r, dict) or not r.get("success"):
             out["inconclusive"].append("session did not start: %r %s" % (r, ses.srv.stderr[-200:]))
